@@ -223,6 +223,16 @@ ChildUnsuspend(c) ==
     /\ tasks' = IF HasSus(c) THEN tasks \cup {SR(parent[c])} ELSE tasks
     /\ UNCHANGED <<pubknown, pst, rst, kst, exists, gone, parent, ent, rc, rcv, req, routes, pub>>
 
+\* ca_child_update(resource class name mapping): the child will know the
+\* parent's resource class under another name.  Class names are not part of
+\* this model (one class per CA): nothing changes -- and nothing may change
+\* in what the code does either.  (Only possible while the child has no
+\* certificates; modelled for a child that has no class yet.)
+ChildMap(c) ==
+    /\ c # Top /\ cstate[c] # "none" /\ exists[parent[c]]
+    /\ ~HasCerts(c) /\ ~HasSus(c) /\ rc[c] = "none" /\ req[c] = {}
+    /\ UNCHANGED vars
+
 \* ca_child_remove: all certificates of the child are revoked and withdrawn.
 ChildRemove(c) ==
     /\ c # Top /\ cstate[c] # "none" /\ exists[parent[c]]
@@ -660,6 +670,7 @@ ApiNext ==
     \/ \E c \in Sub, R \in SUBSET Res : AddCa(c, ParentOf[c], R)
     \/ "res" \in Ops /\ \E c \in Sub, R \in SUBSET Res : ChildRes(c, R)
     \/ "suspend" \in Ops /\ \E c \in Sub : ChildSuspend(c) \/ ChildUnsuspend(c)
+    \/ "map" \in Ops /\ \E c \in Sub : ChildMap(c)
     \/ "remove" \in Ops /\ \E c \in Sub : ChildRemove(c)
     \/ "roa" \in Ops /\ \E c \in AllCA, r \in Roa \ AspaDefs : RoaAdd(c, r) \/ RoaDel(c, r)
     \/ "roadelta" \in Ops /\ \E c \in AllCA, A \in SUBSET (Roa \ AspaDefs), D \in SUBSET (Roa \ AspaDefs) :
